@@ -186,7 +186,7 @@ Proof.
     + split; [discriminate|]. intros H. exfalso.
       destruct IH as [_ IH2]. assert (X : Some d = None) by (apply IH2; intros d0 I; apply (H d0); auto). discriminate.
     + destruct IH as [IH1 _]. specialize (IH1 eq_refl).
-      destruct o as [m d| | | | | | |]; try (split; [intros _ d0 [A|A]; [discriminate | eapply IH1; eauto] | auto]).
+      destruct o as [m d| | | | | | | |]; try (split; [intros _ d0 [A|A]; [discriminate | eapply IH1; eauto] | auto]).
       destruct (bytes_eqb m n) eqn:E2.
       * apply bytes_eqb_eq in E2; subst m. split; [discriminate|]. intros H. exfalso. apply (H d). auto.
       * split; auto. intros _ d0 [A|A]; [|eapply IH1; eauto].
@@ -198,7 +198,7 @@ Proof.
   induction ops as [|o r IH]; simpl; [discriminate|].
   destruct (last_reg r n) eqn:E.
   - intros H; inversion H; subst. auto.
-  - destruct o as [m d0| | | | | | |]; try discriminate.
+  - destruct o as [m d0| | | | | | | |]; try discriminate.
     destruct (bytes_eqb m n) eqn:E2; [|discriminate].
     apply bytes_eqb_eq in E2; subst. intros H; inversion H; subst. auto.
 Qed.
@@ -298,7 +298,7 @@ Section Hist.
     induction pre as [|[g o] pre IH] using rev_ind.
     - unfold after, spec_named. simpl. apply named_init_named.
     - rewrite after_snoc, step_reg, map_app. unfold spec_named in *. rewrite last_reg_app. simpl.
-      destruct o as [m d| | | | | | |]; simpl; try exact IH.
+      destruct o as [m d| | | | | | | |]; simpl; try exact IH.
       rewrite named_register. destruct (bytes_eqb m n); [reflexivity | exact IH].
   Qed.
 
@@ -313,7 +313,7 @@ Section Hist.
         - intros [A|[d A]]; auto. apply in_app_or in A. destruct A as [A|[A|[]]]; eauto.
         - intros [[A|[d A]]|[d A]]; auto; right; exists d; apply in_or_app; simpl; auto. }
       rewrite (X True). clear X.
-      destruct o as [m d| | | | | | |]; try (rewrite IH; split; [auto | intros [A|[d1 A]]; [auto | discriminate]]).
+      destruct o as [m d| | | | | | | |]; try (rewrite IH; split; [auto | intros [A|[d1 A]]; [auto | discriminate]]).
       rewrite keys_register, IH. split.
       + intros [A|A]; [subst; right; eauto | auto].
       + intros [A|[d0 A]]; [auto | inversion A; auto].
@@ -340,7 +340,7 @@ Section Hist.
     tab_decs init g (pre ++ [a]) =
     if Nat.eqb (fst a) g then
       match snd a with
-      | OSet n => tab_decs init g pre ++ [spec_named init (map snd pre) n]
+      | OSet n | OAutoNew n => tab_decs init g pre ++ [spec_named init (map snd pre) n]
       | OReSet k n => set_nth k (spec_named init (map snd pre) n) (tab_decs init g pre)
       | OSetDec k d => set_nth k d (tab_decs init g pre)
       | _ => tab_decs init g pre
@@ -355,11 +355,15 @@ Section Hist.
     induction pre as [|[h o] pre IH] using rev_ind.
     - reflexivity.
     - rewrite after_snoc, tab_decs_snoc. simpl fst. simpl snd.
-      destruct o as [m d|m| | |m|k|k m|k d]; simpl.
+      destruct o as [m d|m| | |m|m|k|k m|k d]; simpl.
       + destruct (Nat.eqb h g); exact IH.
       + destruct (Nat.eqb h g); exact IH.
       + destruct (Nat.eqb h g); exact IH.
       + destruct (Nat.eqb h g); exact IH.
+      + unfold upd. destruct (Nat.eqb g h) eqn:E.
+        * apply Nat.eqb_eq in E; subst h. rewrite Nat.eqb_refl, map_app, IH. simpl.
+          rewrite inv_named. reflexivity.
+        * rewrite Nat.eqb_sym, E. exact IH.
       + unfold upd. destruct (Nat.eqb g h) eqn:E.
         * apply Nat.eqb_eq in E; subst h. rewrite Nat.eqb_refl, map_app, IH. simpl.
           rewrite inv_named. reflexivity.
@@ -459,7 +463,8 @@ Section C17.
       destruct (Nat.eqb (fst a) g) eqn:E; [|exact IH'].
       apply Nat.eqb_eq in E.
       assert (R : retargets k (snd a) = false) by (apply Hq; [apply in_or_app; right; left; reflexivity | exact E]).
-      destruct (snd a) as [m d0|m| | |m|k0|k0 m|k0 d0]; try exact IH'.
+      destruct (snd a) as [m d0|m| | |m|m|k0|k0 m|k0 d0]; try exact IH'.
+      + rewrite nth_error_app1; [exact IH'|]. apply nth_error_Some. congruence.
       + rewrite nth_error_app1; [exact IH'|]. apply nth_error_Some. congruence.
       + simpl in R. apply Nat.eqb_neq in R. rewrite nth_error_set_nth_other by congruence. exact IH'.
       + simpl in R. apply Nat.eqb_neq in R. rewrite nth_error_set_nth_other by congruence. exact IH'.
@@ -489,6 +494,26 @@ Section C17.
     nth_error tr i = Some (g, OSet n) ->
     spec_named init (map snd (firstn i tr)) n = DEmpty ->
     nth_error (run body (init_state init) tr) i = Some (VSet true (Ok ([], true)))
+    /\ forall j k, i < j -> nth_error tr j = Some (g, ORender k) ->
+         k = length (tab_decs init g (firstn i tr)) ->
+         (forall m o, i < m < j -> nth_error tr m = Some (g, o) -> retargets k o = false) ->
+         nth_error (run body (init_state init) tr) j = Some (VRender (Ok ([], true))).
+  Proof.
+    intros H E. split.
+    - rewrite (run_nth body tr _ _ _ H). simpl. fold (after body init (firstn i tr)).
+      rewrite (inv_named body init), E. reflexivity.
+    - intros j k Lt Hj Hk Hq.
+      change (Ok ([], true)) with (spec_render body DEmpty).
+      apply (render_after tr (S i) j g k DEmpty); [lia| |intros m o Rm; apply Hq; lia|exact Hj].
+      rewrite (firstn_S_nth tr i _ H), (tab_decs_snoc init). simpl. rewrite Nat.eqb_refl.
+      rewrite nth_error_app2 by lia. rewrite Hk, Nat.sub_diag, E. reflexivity.
+  Qed.
+
+  (* ... and through auto.New: the error is dropped there, the refusal is not *)
+  Lemma closed_auto tr i g n :
+    nth_error tr i = Some (g, OAutoNew n) ->
+    spec_named init (map snd (firstn i tr)) n = DEmpty ->
+    nth_error (run body (init_state init) tr) i = Some (VRender (Ok ([], true)))
     /\ forall j k, i < j -> nth_error tr j = Some (g, ORender k) ->
          k = length (tab_decs init g (firstn i tr)) ->
          (forall m o, i < m < j -> nth_error tr m = Some (g, o) -> retargets k o = false) ->
@@ -560,7 +585,7 @@ Qed.
 Lemma registeredb_spec init ops n : registeredb init ops n = true <-> registered init ops n.
 Proof.
   unfold registeredb, registered. rewrite orb_true_iff, memb_In, existsb_exists. split.
-  - intros [A|[o [I E]]]; auto. destruct o as [m d| | | | | | |]; try discriminate.
+  - intros [A|[o [I E]]]; auto. destruct o as [m d| | | | | | | |]; try discriminate.
     apply bytes_eqb_eq in E; subst. eauto.
   - intros [A|[d A]]; auto. right. exists (OReg n d). split; auto. apply bytes_eqb_refl.
 Qed.
@@ -599,7 +624,7 @@ Qed.
 Lemma In_reg_names n ops : In n (reg_names ops) <-> exists d, In (OReg n d) ops.
 Proof.
   unfold reg_names. rewrite in_flat_map. split.
-  - intros [o [I J]]. destruct o as [m d| | | | | | |]; try contradiction.
+  - intros [o [I J]]. destruct o as [m d| | | | | | | |]; try contradiction.
     destruct J as [J|[]]. subst. eauto.
   - intros [d I]. exists (OReg n d). split; [exact I | left; reflexivity].
 Qed.
@@ -618,7 +643,7 @@ Section Master.
     - apply nodupb_NoDup. exact B.
     - apply forallb_forall. intros n I. apply registeredb_spec. apply (inv_keys body init). apply C. exact I.
     - apply forallb_forall. intros n I. apply memb_In. apply C. apply (inv_keys body init). left. exact I.
-    - apply forallb_forall. intros o I. destruct o as [m d| | | | | | |]; auto.
+    - apply forallb_forall. intros o I. destruct o as [m d| | | | | | | |]; auto.
       apply memb_In. apply C. apply (inv_keys body init). right. eauto.
   Qed.
 
@@ -654,13 +679,14 @@ Section Master.
     pose proof (inv_tabs body init pre g) as T.
     assert (X : forall k, nth_error (tab_decs init g pre) k = option_map tt_decor (nth_error (g_tabs (after body init pre) g) k)).
     { intros k. rewrite <- T. apply nth_error_map. }
-    destruct o as [m d|m| | |m|k|k m|k d]; simpl.
+    destruct o as [m d|m| | |m|m|k|k m|k d]; simpl.
     - reflexivity.
     - rewrite (inv_named body init). apply dec_eqb_refl.
     - apply model_listing_ok.
     - apply model_styles_ok.
     - rewrite (inv_named body init). rewrite text_render_spec. rewrite rr_eqb_refl.
       destruct (dec_is_empty (spec_named init (map snd pre) m)); reflexivity.
+    - rewrite (inv_named body init). rewrite text_render_spec. apply rr_eqb_refl.
     - rewrite X. destruct (nth_error (g_tabs (after body init pre) g) k) as [[d]|]; simpl.
       + rewrite text_render_spec. apply rr_eqb_refl.
       + reflexivity.
@@ -763,7 +789,7 @@ Qed.
 
 Lemma reg_of_some n r d : reg_of n r = Some d -> e_op r = OReg n d.
 Proof.
-  unfold reg_of. destruct (e_op r) as [m d0| | | | | | |]; try discriminate.
+  unfold reg_of. destruct (e_op r) as [m d0| | | | | | | |]; try discriminate.
   destruct (bytes_eqb m n) eqn:E; [|discriminate]. apply bytes_eqb_eq in E. subst. intros H; inversion H; reflexivity.
 Qed.
 
@@ -866,7 +892,7 @@ Section Sound.
         exists w. split; [apply InH; apply in_or_app; auto|].
         rewrite (reg_of_op _ _ _ Ew). apply N.leb_le. apply N.nlt_ge. apply RT12; [exact Iw | left; reflexivity].
     - apply forallb_forall. intros n I. apply memb_In. apply K. right. left. exact I.
-    - apply forallb_forall. intros w Iw. destruct (e_op w) as [m d| | | | | | |] eqn:Ew; auto.
+    - apply forallb_forall. intros w Iw. destruct (e_op w) as [m d| | | | | | | |] eqn:Ew; auto.
       destruct (N.ltb (e_e w) (e_s e)) eqn:T; [|reflexivity]. apply N.ltb_lt in T.
       apply memb_In. apply K. right. right. exists d.
       apply InH in Iw. apply in_app_or in Iw. destruct Iw as [I1|[I1|I1]].
@@ -928,7 +954,7 @@ Section Sound.
     assert (It : In e tr) by (eapply Permutation_in; [symmetry; exact P | exact Ie]).
     destruct (in_split _ _ It) as [l1 [l2 Etr]]. subst tr.
     pose proof (legal_obs _ _ _ L) as O.
-    unfold event_ok. destruct (e_op e) as [m d|m| | |m|k|k m|k d] eqn:Eo.
+    unfold event_ok. destruct (e_op e) as [m d|m| | |m|m|k|k m|k d] eqn:Eo.
     - rewrite O. simpl. reflexivity.
     - apply (read_sound H l1 e l2 m); auto.
       + unfold reg_of. rewrite Eo. reflexivity.
@@ -939,6 +965,10 @@ Section Sound.
       + unfold reg_of. rewrite Eo. reflexivity.
       + rewrite O. simpl. rewrite (inv_named body init), map_snd_ev_trace, text_render_spec.
         rewrite rr_eqb_refl. destruct (dec_is_empty (spec_named init (map e_op l1) m)); reflexivity.
+    - apply (read_sound H l1 e l2 m); auto.
+      + unfold reg_of. rewrite Eo. reflexivity.
+      + rewrite O. simpl. rewrite (inv_named body init), map_snd_ev_trace, text_render_spec.
+        apply rr_eqb_refl.
     - reflexivity.
     - rewrite O. simpl.
       destruct (nth_error (g_tabs (after body init (ev_trace l1)) (e_g e)) k) as [t0|]; [|reflexivity].
@@ -986,3 +1016,14 @@ Lemma merge_reset body init (progs : list (list (nat * op))) tr :
        (forall m o, i < m < j -> nth_error tr m = Some (g, o) -> retargets k o = false) ->
        nth_error (run body (init_state init) tr) j = Some (VRender (spec_render body d)).
 Proof. intros _ i g k n. apply reset_hist. Qed.
+
+Lemma merge_closed_auto body init (progs : list (list (nat * op))) tr :
+  is_merge progs tr -> forall i g n,
+  nth_error tr i = Some (g, OAutoNew n) ->
+  spec_named init (map snd (firstn i tr)) n = DEmpty ->
+  nth_error (run body (init_state init) tr) i = Some (VRender (Ok ([], true)))
+  /\ forall j k, i < j -> nth_error tr j = Some (g, ORender k) ->
+       k = length (tab_decs init g (firstn i tr)) ->
+       (forall m o, i < m < j -> nth_error tr m = Some (g, o) -> retargets k o = false) ->
+       nth_error (run body (init_state init) tr) j = Some (VRender (Ok ([], true))).
+Proof. intros _ i g n. apply closed_auto. Qed.
